@@ -164,6 +164,11 @@ func (p *Proposal) decompress() ([]byte, error) {
 		return nil, err
 	}
 
+	// Closing the reader verifies the checksum and size of the decompressed data.
+	if err := r.Close(); err != nil {
+		return nil, err
+	}
+
 	return buf.Bytes(), nil
 }
 
